@@ -41,8 +41,8 @@ from gen import gr_resolver_inputs as gr
 from specs import resolver_spec as rs
 
 ID = 'C12'
-LEVEL = 'exploration'
-P_TARGETS = []
+LEVEL = 'other'
+P_TARGETS = ['cgsmiles.graph_utils:merge_graphs']
 BUDGET = {'quick': 32.0, 'thorough': 300.0}
 CHUNK = 12
 HASHSEEDS = ('0', '1', '4242')
